@@ -15,7 +15,9 @@ import sys
 
 pid, mid = sys.argv[1], sys.argv[2]
 opts = sys.argv[3:]
-wt = f"/tmp/wt/{pid}"
+root = os.environ.get("SEED_ROOT", "/tmp/wt")
+prefix = os.environ.get("SEED_PREFIX", "")
+wt = f"{root}/{pid}"
 diff = f"{wt}/out/{mid}.diff"
 demo = f"{wt}/out/{mid}_demo.py"
 env = dict(os.environ, PYTHONPATH=f"/tmp/numba_stub:{wt}")
@@ -44,7 +46,7 @@ if "--suite" in opts:
     meta["ran"].append(f"cd {wt} && PYTHONPATH={wt} /venv/bin/python -m pytest -q -p no:cacheprovider -n 10 xgcm/test  -> {p.stdout.strip()}")
 sh("git checkout -- .", cwd=wt)
 ok_demo = rc_clean == 0 and rc_mut != 0
-print(f"{pid}-{mid}: demo clean rc={rc_clean}, with patch rc={rc_mut}; suite: {meta.get('suite_with_patch', 'not run')}")
+print(f"{pid}-{prefix}{mid}: demo clean rc={rc_clean}, with patch rc={rc_mut}; suite: {meta.get('suite_with_patch', 'not run')}")
 
 # --- our checks
 ids = [pid]
@@ -71,7 +73,7 @@ finally:
 meta["checks"] = det
 meta["detected_by"] = [c for c, d in det.items() if d["rc"] == 1]
 meta["confirmed"] = ok_demo
-out = f"/verif/seeded/{pid}-{mid}"
+out = f"/verif/seeded/{pid}-{prefix}{mid}"
 os.makedirs(out, exist_ok=True)
 shutil.copy(diff, f"{out}/patch.diff")
 shutil.copy(demo, f"{out}/demo.py")
